@@ -29,7 +29,20 @@ def ref_symbols(value, width, base):
 def sequences(draw, tier, base):
     max_len = 300 if tier == "quick" else 1200
     shape = draw(st.sampled_from(["random", "random", "random", "zeros", "leading", "max", "near_max", "empty",
-                                  "tiny", "one"]))
+                                  "tiny", "one", "decimal_round", "decimal_round"]))
+    if shape == "decimal_round":
+        # values round in decimal (m * 10^j + r): interior zero blocks and exact block carries of the string path
+        m = draw(st.one_of(st.integers(1, 999), st.sampled_from([2, 3, 5, 25, 125, 6 ** 20, 3 ** 30])))
+        j = draw(st.one_of(st.integers(1, 80), st.sampled_from([9, 10, 18, 19, 21, 27, 40])))
+        value = m * 10 ** j + draw(st.sampled_from([0, 0, 1, 2, 7])) * draw(st.sampled_from([1, 10 ** 9, 5 * 10 ** 8]))
+        symbols = []
+        while value:
+            symbols.append(value % base)
+            value //= base
+        symbols.reverse()
+        # optionally more symbols after the round prefix (the conversion passes through the round value)
+        return [0] * draw(st.sampled_from([0, 0, 2])) + symbols + [draw(st.integers(0, base - 1))
+                                                                   for _ in range(draw(st.sampled_from([0, 0, 1, 3])))]
     if shape == "empty":
         return []
     n = draw(st.one_of(st.integers(1, 12), st.integers(9, 80), st.integers(40, max_len), st.integers(40, max_len)))
